@@ -4,6 +4,8 @@ import (
 	"bytes"
 	"encoding/base64"
 	"fmt"
+	ethcrypto "github.com/ethereum/go-ethereum/crypto"
+	"golang.org/x/crypto/sha3"
 
 	"github.com/ethereum/go-ethereum/common"
 	abcitypes "github.com/tendermint/tendermint/abci/types"
@@ -19,7 +21,7 @@ import (
 func init() {
 	simkit.Register(&simkit.Property{
 		ID: "C10", Level: "exploration", Bubble: false, Run: runC10,
-		Rule: "World A, twin run: the same generated valid history is executed on two real app.ShutterApp instances; into one of them 1-4 hostile transactions are injected at Chooser-chosen positions (via CheckTx and/or directly into a block): raw bytes, truncated/bit-flipped valid transactions, valid base64 of short strings, wrong chain id, exact replays, outsider-signed messages of every type (naming real eons/configs), keyper-signed envelopes around structurally invalid payloads (bad address lengths, duplicate receivers, mismatched list lengths, invalid curve points, bad keys, empty message). Oracles: no ABCI call panics; refusal codes as stated; hostile transactions emit no events; every later DeliverTx/EndBlock response to transactions of OTHER senders and the projected state (configs, votes, DKG instances, identities, validators, eon counter, block-seen of keypers) are identical in both twins. Non-trivial = an injected transaction that decodes with a valid signature (reaches message dispatch); distinct = distinct trace hashes among those.",
+		Rule:        "World A, twin run: the same generated valid history is executed on two real app.ShutterApp instances; into one of them 1-4 hostile transactions are injected at Chooser-chosen positions (via CheckTx and/or directly into a block): raw bytes, truncated/bit-flipped valid transactions, valid base64 of short strings, wrong chain id, exact replays, outsider-signed messages of every type (naming real eons/configs), keyper-signed envelopes around structurally invalid payloads (bad address lengths, duplicate receivers, mismatched list lengths, invalid curve points, bad keys, empty message). Oracles: no ABCI call panics; refusal codes as stated; hostile transactions emit no events; every later DeliverTx/EndBlock response to transactions of OTHER senders and the projected state (configs, votes, DKG instances, identities, validators, eon counter, block-seen of keypers) are identical in both twins. Non-trivial = an injected transaction that decodes with a valid signature (reaches message dispatch); distinct = distinct trace hashes among those.",
 		Assumptions: []string{"'no effect' is judged on the projection named in the property (events, votes, validator changes, answers to other senders); the per-sender nonce set and block-seen entries of non-keypers are not observable and are excluded"},
 		Real:        []string{"app.ShutterApp", "shmsg", "shutterevents"},
 		Stub:        []string{"Tendermint consensus, mempool, block store (simtm)"},
@@ -171,10 +173,17 @@ func decodeEnvelope(tx []byte) (signer common.Address, msg *shmsg.MessageWithNon
 	if err != nil || len(raw) < 65 {
 		return
 	}
-	s, err := shmsg.GetSigner(raw)
+	// the harness's own reading of the wire format (65-byte signature over
+	// SHA3-256(0x19 "shmsg" || payload), then the protobuf payload): the classification must not
+	// inherit the repository's signer recovery
+	hh := sha3.New256()
+	hh.Write([]byte{0x19, 's', 'h', 'm', 's', 'g'})
+	hh.Write(raw[65:])
+	pub, err := ethcrypto.SigToPub(hh.Sum(nil), raw[:65])
 	if err != nil {
 		return
 	}
+	s := ethcrypto.PubkeyToAddress(*pub)
 	m := &shmsg.MessageWithNonce{}
 	if err := proto.Unmarshal(raw[65:], m); err != nil {
 		return
@@ -355,7 +364,6 @@ func runC10(r *simkit.Run) {
 	r.Sample["blocks"] = height
 	r.Sample["hostile"] = nInject
 }
-
 
 // detDeliver renders the part of a DeliverTx response that is a function of the
 // chain (Log/Info carry Go stack traces of the process and are, as in
